@@ -22,11 +22,13 @@ Record BSh (c : cfg) (s : sys) : Prop := {
    the logical index, the writers are less than a capacity ahead *)
 Definition rd_ok (c : cfg) (s : sys) (t : nat) (x : tstate) : Prop :=
   c_rm c <> ROnce ->
-  c_pre c + t_cnt x <= s_nw s /\
-  (forall k, 0 <= k < t_cnt x -> t_got x k = s_wr s (c_pre c + k)) /\
+  t_start x = rd_start c t /\
+  t_start x + t_cnt x <= s_nw s /\
+  (forall k, 0 <= k < t_cnt x -> t_got x k = s_wr s (t_start x + k)) /\
   (is_reader c t = true ->
-   s_wbeg s < c_pre c + t_cnt x + cap c /\
-   t_idx x mod cap c = (c_pre c + t_cnt x) mod cap c).
+   0 <= t_start x /\
+   (t_rem x <> O -> s_wbeg s < t_start x + t_cnt x + cap c) /\
+   t_idx x mod cap c = (t_start x + t_cnt x) mod cap c).
 
 (* read-once readers: every result is the take recorded for this reader at some position of
    the read-mutex order *)
@@ -45,7 +47,8 @@ Definition pc_ok (c : cfg) (s : sys) (x : tstate) : Prop :=
   | WSlotSeg | WUnlockSeg | WUnlock => s_wbeg s = s_nw s
   | WCursor => s_wbeg s = s_nw s + 1 /\ s_slot s (s_nw s mod cap c) = t_msg x /\
                t_pos x = (s_nw s + 1) mod cap c
-  | RRead => c_pre c + t_cnt x < s_nw s
+  | RLoad => t_rem x <> O
+  | RRead => t_start x + t_cnt x < s_nw s /\ t_rem x <> O
   | KCheck => exists nwo, t_pos x = nwo mod cap c /\ s_nt s <= nwo <= s_nw s /\ nwo < s_nt s + cap c
   | _ => True
   end.
@@ -72,8 +75,9 @@ Proof.
     + intros; lia.
     + intros; lia.
   - intros t. unfold bthr_ok, rd_ok, on_ok, pc_ok, tinit; simpl. split; [lia|]. split; [|split].
-    + intros _. split; [lia|]. split; [intros; lia|]. intros Hr. split; [lia|].
-      rewrite Z.add_0_r. apply (wf_idx _ Hwf t Hr).
+    + intros Hm. pose proof (rd_start_range c t) as Hrs. split; [reflexivity|]. split; [lia|].
+      split; [intros; lia|]. intros Hr. split; [apply (wf_idx _ Hwf t Hr); exact Hm|]. split; [intros _; lia|].
+      rewrite Z.add_0_r. symmetry. apply rd_start_mod.
     + intros _. split; [intros; lia|].
       destruct (is_writer c t); simpl; [discriminate|].
       destruct (is_reader c t); [destruct (c_rm c)|]; simpl; discriminate.
@@ -137,13 +141,18 @@ Proof.
   apply Nat.leb_le in H1. apply Nat.ltb_lt in H2. apply in_seq. lia.
 Qed.
 
+Lemma active_rem x : active x = true <-> t_rem x <> O.
+Proof. unfold active. destruct (Nat.eqb_spec (t_rem x) O); simpl; split; intros; congruence. Qed.
+
 Lemma nolap_reader c s w : s_cfg s = c -> c_rm c <> ROnce -> nolap_ok s w = true ->
-  forall u, is_reader c u = true -> w < c_pre c + t_cnt (s_thr s u) + cap c.
+  forall u, is_reader c u = true -> t_rem (s_thr s u) <> O ->
+  w < t_start (s_thr s u) + t_cnt (s_thr s u) + cap c.
 Proof.
-  intros Hc Hm H u Hu. unfold nolap_ok in H. rewrite Hc in H.
-  assert (F : forallb (fun u => w <? c_pre c + t_cnt (s_thr s u) + cap c) (readers c) = true).
+  intros Hc Hm H u Hu Hrem. unfold nolap_ok in H. rewrite Hc in H.
+  assert (F : forallb (fun u => negb (active (s_thr s u)) || (w <? rnext (s_thr s u) + cap c)) (readers c) = true).
   { destruct (c_rm c); try assumption. congruence. }
-  rewrite forallb_forall in F. specialize (F u (in_readers c u Hu)). now apply Z.ltb_lt in F.
+  rewrite forallb_forall in F. specialize (F u (in_readers c u Hu)).
+  apply active_rem in Hrem. rewrite Hrem in F. simpl in F. now apply Z.ltb_lt in F.
 Qed.
 
 Lemma nolap_once c s w : s_cfg s = c -> c_rm c = ROnce -> nolap_ok s w = true -> w < s_nt s + cap c.
@@ -153,16 +162,17 @@ Proof. intros Hc Hm H. unfold nolap_ok in H. rewrite Hc, Hm in H. now apply Z.lt
 Lemma others_slot c s s' u m :
   s_nw s' = s_nw s -> s_wr s' = s_wr s -> s_wbeg s' = s_wbeg s + 1 -> s_nt s' = s_nt s ->
   s_once s' = s_once s -> s_who s' = s_who s -> s_slot s' = zupd (s_slot s) (s_cursor s) m ->
-  (c_rm c <> ROnce -> is_reader c u = true -> s_wbeg s + 1 < c_pre c + t_cnt (s_thr s u) + cap c) ->
+  (c_rm c <> ROnce -> is_reader c u = true -> t_rem (s_thr s u) <> O ->
+   s_wbeg s + 1 < t_start (s_thr s u) + t_cnt (s_thr s u) + cap c) ->
   bthr_ok c s u (s_thr s u) -> crit (t_pc (s_thr s u)) = false ->
   (c_wm c = WSingle -> wpc (t_pc (s_thr s u)) = false) ->
   bthr_ok c s' u (s_thr s u).
 Proof.
   intros E1 E2 E3 E4 E5 E6 E7 Hlap (H0 & Hr & Ho & Hpc) Hcr Hsg.
   unfold bthr_ok. split; [exact H0|]. split; [|split].
-  - unfold rd_ok in *. rewrite E1, E2, E3. intros Hm. destruct (Hr Hm) as (A & B & C).
-    split; [exact A|]. split; [exact B|]. intros Hrd. destruct (C Hrd) as [C1 C2]. split; [|exact C2].
-    apply Hlap; assumption.
+  - unfold rd_ok in *. rewrite E1, E2, E3. intros Hm. destruct (Hr Hm) as (A0 & A & B & C).
+    split; [exact A0|]. split; [exact A|]. split; [exact B|]. intros Hrd. destruct (C Hrd) as (C0 & C1 & C2).
+    split; [exact C0|]. split; [|exact C2]. intros Hrem. apply Hlap; assumption.
   - unfold on_ok in *. rewrite E4, E5, E6. exact Ho.
   - unfold pc_ok in *. rewrite E1, E3, E4.
     destruct (t_pc (s_thr s u)); simpl in *; try exact I; try discriminate;
@@ -179,13 +189,13 @@ Lemma others_publish c s s' u x m :
 Proof.
   intros E1 E2 E3 E4 E5 E6 E7 (H0 & Hr & Ho & Hpc) Hcr Hsg Hpre.
   unfold bthr_ok. split; [exact H0|]. split; [|split].
-  - unfold rd_ok in *. rewrite E1, E2, E3. intros Hm. destruct (Hr Hm) as (A & B & C).
-    split; [lia|]. split; [|exact C]. intros k Hk. rewrite zupd_other by lia. apply B; assumption.
+  - unfold rd_ok in *. rewrite E1, E2, E3. intros Hm. destruct (Hr Hm) as (A0 & A & B & C).
+    split; [exact A0|]. split; [lia|]. split; [|exact C]. intros k Hk. rewrite zupd_other by lia. apply B; assumption.
   - unfold on_ok in *. rewrite E4, E5, E6. exact Ho.
   - unfold pc_ok in *. rewrite E1, E3, E4.
     destruct (t_pc x); simpl in *; try exact I; try discriminate;
-      try (intros Hw; specialize (Hsg Hw); discriminate).
-    + lia.
+      try (intros Hw; specialize (Hsg Hw); discriminate); try assumption.
+    + split; [lia|apply Hpc].
     + destruct Hpc as (nwo & A & B & C). exists nwo. repeat split; try assumption; lia.
 Qed.
 
@@ -212,8 +222,13 @@ Qed.
 (* the reader parts of a thread's facts under changes of its own state *)
 Lemma rd_ok_eq c s s' t x x' :
   rd_ok c s t x -> s_nw s' = s_nw s -> s_wr s' = s_wr s -> s_wbeg s' = s_wbeg s ->
-  t_cnt x' = t_cnt x -> t_got x' = t_got x -> t_idx x' = t_idx x -> rd_ok c s' t x'.
-Proof. unfold rd_ok. intros H E1 E2 E3 E4 E5 E6. rewrite E1, E2, E3, E4, E5, E6. exact H. Qed.
+  t_cnt x' = t_cnt x -> t_got x' = t_got x -> t_idx x' = t_idx x ->
+  t_start x' = t_start x -> (is_reader c t = true -> t_rem x' = t_rem x) -> rd_ok c s' t x'.
+Proof.
+  unfold rd_ok. intros H E1 E2 E3 E4 E5 E6 E7 E8 Hm. rewrite E1, E2, E3, E4, E5, E6, E7.
+  destruct (H Hm) as (A0 & A & B & C). split; [exact A0|]. split; [exact A|]. split; [exact B|].
+  intros Hr. rewrite (E8 Hr). exact (C Hr).
+Qed.
 
 Lemma on_ok_eq c s s' t x x' :
   on_ok c s t x -> s_nt s' = s_nt s -> s_once s' = s_once s -> s_who s' = s_who s ->
@@ -226,10 +241,11 @@ Qed.
 
 Lemma bthr_change c s t x x' :
   bthr_ok c s t x -> t_cnt x' = t_cnt x -> t_got x' = t_got x -> t_gotn x' = t_gotn x ->
-  t_idx x' = t_idx x -> t_ret x' = t_ret x ->
+  t_idx x' = t_idx x -> t_ret x' = t_ret x -> t_start x' = t_start x ->
+  (is_reader c t = true -> t_rem x' = t_rem x) ->
   (pending (t_pc x') = true -> pending (t_pc x) = true) -> pc_ok c s x' -> bthr_ok c s t x'.
 Proof.
-  intros (H0 & Hr & Ho & _) E1 E2 E3 E4 E5 Hp Hpc. unfold bthr_ok. rewrite E1. split; [exact H0|].
+  intros (H0 & Hr & Ho & _) E1 E2 E3 E4 E5 E6 E7 Hp Hpc. unfold bthr_ok. rewrite E1. split; [exact H0|].
   split; [eapply rd_ok_eq; eauto|]. split; [eapply on_ok_eq; eauto|exact Hpc].
 Qed.
 
@@ -237,8 +253,8 @@ Lemma rd_ok_publish c s s' t x m :
   rd_ok c s t x -> s_nw s' = s_nw s + 1 -> s_wr s' = zupd (s_wr s) (s_nw s) m -> s_wbeg s' = s_wbeg s ->
   0 <= c_pre c -> rd_ok c s' t x.
 Proof.
-  unfold rd_ok. intros H E1 E2 E3 Hpre Hm. rewrite E1, E2, E3. destruct (H Hm) as (A & B & C).
-  split; [lia|]. split; [|exact C]. intros k Hk. rewrite zupd_other by lia. apply B; assumption.
+  unfold rd_ok. intros H E1 E2 E3 Hpre Hm. rewrite E1, E2, E3. destruct (H Hm) as (A0 & A & B & C).
+  split; [exact A0|]. split; [lia|]. split; [|exact C]. intros k Hk. rewrite zupd_other by lia. apply B; assumption.
 Qed.
 
 Section Step.
